@@ -185,6 +185,32 @@ fn check_collisions(acc: &mut Acc) {
             ctx.exec("main", &b)
         });
         let actual = show(&r);
+        // call position: the field still wins, and its value (a string) is not callable
+        let rc = guard(|| {
+            let mut ctx = CelContext::new();
+            let src = match field {
+                "size" => "m.size()".to_string(),
+                "contains" => "m.contains('x')".to_string(),
+                "map" | "has" => format!("m.{}(k, k)", field),
+                _ => format!("m.{}()", field),
+            };
+            ctx.add_program_str("main", &src)?;
+            let mut b = BindContext::new();
+            let mut h = std::collections::HashMap::new();
+            h.insert(field.to_string(), CelValue::from_string("field".into()));
+            h.insert("other".to_string(), CelValue::from_int(1));
+            b.bind_param("m", CelValue::Map(h));
+            ctx.exec("main", &b)
+        });
+        let called = show(&rc);
+        acc.case("collisions", &format!("member call m.{}(..)", field), field != "plain", "collision:member-call");
+        if !called.starts_with("Err") {
+            acc.fail(Failure::new(
+                "c12:collision:member-call:method-wins-over-field",
+                format!("m.{}(..) with m = {{'{}': 'field', 'other': 1}} gave {} - the field wins over the method, and a string is not callable", field, field, called),
+                json!({"kind": "member", "field": field}),
+            ));
+        }
         acc.case("collisions", &format!("member m.{}", field), field != "plain", "collision:member");
         if actual != "\"field\"" {
             acc.fail(Failure::new(
@@ -363,6 +389,10 @@ pub const EDGE_CONSTRUCTS: &[(&str, &str)] = &[
     ("nested-macro-body", "[0].map(e, [0].map(f, {})[0])[0]"),
     ("match-scrutinee", "((match {} { case _: 0 }) + {})"),
     ("method-receiver", "[{}].size() * {}"),
+    // a fallback after the reference: an error raised below must not be mistaken for absence
+    ("coalesce-fallback", "coalesce({}, 0)"),
+    ("coalesce-fallback-in-macro", "[0].map(e, coalesce({}, 0))[0]"),
+    ("or-absorb", "(({} > 0) || true ? {} : 0)"),
 ];
 
 fn edge_expr(construct: usize, target: &str) -> String {
@@ -710,7 +740,7 @@ fn run(opts: &Opts, acc: &mut Acc) {
             }
         }
     }
-    acc.mark_exhaustive("edge-constructs", "each of the 29 referencing constructs on a single edge, a self-loop, a 2-cycle, a 3-cycle and a diamond");
+    acc.mark_exhaustive("edge-constructs", "each of the 32 referencing constructs on a single edge, a self-loop, a 2-cycle, a 3-cycle and a diamond");
     let lens: Vec<usize> = if opts.tier == Tier::Thorough { (1..=64).collect() } else { vec![1, 2, 3, 8, 15, 16, 17, 24, 31, 32, 33, 48, 64] };
     for l in lens {
         check_chain(l, acc);
